@@ -31,7 +31,21 @@ MUTANTS = [
     ("size-list-uses-cap", R + "ttype.go", "return listHeaderLen + (h.Len * vt.FixedSize), nil", "return listHeaderLen + (h.Cap * vt.FixedSize), nil", ["C04", "C16"]),
     ("encode-no-length-test", "frugal.go", "if len(ret) > len(buf) {", "if len(ret) > len(buf)+8 {", ["C04"]),
     ("size-optional-default-counts-header-only-once", R + "ttype.go", "		if f.CanSkipIfDefault && t.Equal(f.Default, p) {\n			continue\n		}\n		if n := t.FixedSize; n > 0 {", "		if f.CanSkipIfDefault && t.T != tDOUBLE && t.Equal(f.Default, p) {\n			continue\n		}\n		if n := t.FixedSize; n > 0 {", ["C04", "C10"]),
-    ("list-count-check-removed", R + "decoder.go", "if remain := len(b) - i; l > remain/int(minWireSize[et.WT]) {", "if remain := len(b) - i; l > remain/int(minWireSize[et.WT]) && et.FixedSize > 0 {", ["C05"]),
+    ("list-count-check-removed", R + "decoder.go", "if remain := len(b) - i; l > remain/int(minWireSize[et.WT]) || !d.claim(l, int(minWireSize[et.WT])) {", "if remain := len(b) - i; (l > remain/int(minWireSize[et.WT]) || !d.claim(l, int(minWireSize[et.WT]))) && et.FixedSize > 0 {", ["C05"]),
+    ("claim-quota-never-exhausted", R + "decoder.go", "	d.quota -= l * sz\n	return d.quota >= 0", "	d.quota -= l * sz\n	return true", ["C05"]),
+    ("claim-quota-too-small", R + "decoder.go", "	d.quota = 8*n + 1024", "	d.quota = n / 2", ["C03", "C01"]),
+    ("pointer-binary-decoded-as-string", R + "ttype.go", "	if t.IsPointer {\n		return t.V.Tag == defs.T_binary\n	}\n	return t.Tag == defs.T_binary", "	return t.Tag == defs.T_binary", ["C01", "C14", "C03"]),
+    ("double-key-fast-path-back", R + "append_map.go", "	if t.K.T == tDOUBLE {", "	if t.K.T == tDOUBLE && t.V.T == tSTRUCT {", ["C02", "C01"]),
+    ("binary-map-value-fast-path-back", R + "append_map.go", "	if t.V.Tag == defs.T_binary {", "	if t.V.Tag == defs.T_binary && t.K.T == tSTRING {", ["C02", "C01"]),
+    ("recursive-container-check-removed", D + "types.go", "	if def == \"\" && isRecursiveContainer(vt, nil) {", "	if def == \"\" && vt.Kind() == reflect.Slice && isRecursiveContainer(vt, nil) {", ["C13"]),
+    ("anon-struct-keyword-check-removed", D + "types.go", "		return !isTypeKeyword(*tv), nil", "		return true, nil", ["C13"]),
+    ("nested-pointer-check-removed", D + "types.go", "		if !allowPtrs {\n			return nil, EType(vt, \"nested pointer is not allowed\")\n		}", "		if !allowPtrs && vt.Elem().Kind() == reflect.Ptr {\n			return nil, EType(vt, \"nested pointer is not allowed\")\n		}", ["C13"]),
+    ("embedded-holder-accepted-again", R + "desc.go", "	if ok && len(f.Index) == 1 && f.Type.Kind() == reflect.Slice", "	if ok && f.Type.Kind() == reflect.Slice", ["C12"]),
+    ("encode-uses-full-capacity-again", "frugal.go", "reflect.Append(buf[:0:len(buf)], val)", "reflect.Append(buf[:0], val)", ["C04", "C16"]),
+    ("truncated-field-header-unchecked", R + "decoder.go", "		if len(b)-i < 2 {\n			return i, io.ErrShortBuffer\n		}", "		if len(b)-i < 1 {\n			return i, io.ErrShortBuffer\n		}", ["C05"]),
+    ("skip-recover-removed", R + "decoder.go", "	n, err = thrift.Binary.Skip(b, thrift.TType(tp))\n	if err == nil && n > len(b) {", "	n, err = thrift.Binary.Skip(b, thrift.TType(tp))\n	if err == nil && n > len(b)+8 {", ["C05"]),
+    ("required-name-by-offset-again", R + "decoder.go", "newRequiredFieldNotSetException(sd.GetField(fid).Name)", "newRequiredFieldNotSetException(sd.rt.Field(0).Name)", ["C09"]),
+    ("size-derefs-byvalue-structs-again", R + "ttype.go", "	if t.IsPointer { // never true when called from reflect.EncodedSize", "	if t.IsPointer || (t.T == tSTRUCT && t.RT.Size() == 8) { // never true when called from reflect.EncodedSize", ["C04"]),
     ("negative-length-off-by-one", R + "decoder.go", "		l := int(int32(binary.BigEndian.Uint32(b)))\n		if l < 0 {\n			return 0, errNegativeSize\n		}\n		i := 4", "		l := int(int32(binary.BigEndian.Uint32(b)))\n		if l < -1 {\n			return 0, errNegativeSize\n		}\n		i := 4", ["C05"]),
     ("list-elem-type-not-compared", R + "decoder.go", "		if et.WT != tp {\n			return 0, newTypeMismatch(et.WT, tp)\n		}", "		if et.WT != tp && et.FixedSize == 0 {\n			return 0, newTypeMismatch(et.WT, tp)\n		}", ["C05", "C03"]),
     ("map-key-type-not-compared", R + "decoder.go", "if t0 != kt.WT || t1 != vt.WT {", "if t1 != vt.WT {", ["C05"]),
